@@ -18,7 +18,7 @@ from vuniv import gen, intuniv, words
 PROPERTY = "C13"
 LEVEL = "exploration"
 RULE = (
-    "case = two fresh real searchers (default rule database, atom-verified non-iterative packs) on a "
+    "case = (first, under every seed, the 40 mined inputs of corpus/c13_context.json on which the equivalence-path verdict depends on the context it is asked from; then) two fresh real searchers (default rule database, atom-verified non-iterative packs) on a "
     "related pair of word classes and one of the two finder variants; find() is called; judged: no "
     "exception, and for a returned pair both specifications enumerate their own start class (brute "
     "force to N), pass the C02 structural monitor, and are isomorphic to each other. non-trivial = a "
